@@ -560,10 +560,10 @@ pub fn generate(args: &Args) -> Vec<String> {
     }
     // (3) derived enums on all segment lists over their own vocabulary
     let vocab: [&[&str]; 4] = [
-        &["a", "nums", "files", "x", "mid", "sub", "item", "end", "7", "+3", "4294967296", "q", "name", "all", "-1"],
+        &["a", "nums", "files", "x", "mid", "sub", "item", "end", "7", "+3", "4294967296", "q", "name", "all", "-1", "nums?q=1", "sub#f"],
         &["1", "w", "end", "4294967295", "00", "+", "e?q=1"],
-        &["item", "name", "all", "5", "z", "-0"],
-        &["about", "u", "me", "7", "docs", "index", "n", "x", "y", "12"],
+        &["item", "name", "all", "5", "z", "-0", "all?x=1", "item#i"],
+        &["about", "u", "me", "7", "docs", "index", "n", "x", "y", "12", "about?tab=team", "docs#top"],
     ];
     for (e, v) in vocab.iter().enumerate() {
         let v: Vec<String> = v.iter().map(|s| s.to_string()).collect();
